@@ -22,7 +22,7 @@ ASSUMPTIONS = ["a bytecode boundary inside `task.completed += advance` is a lega
                "the reference model mirrors the statement: completed = last explicit value + advances since (same "
                "float addition order), percentage = clamp(completed/total*100)",
                "on an early break out of track() the element being processed may or may not have been counted"]
-REQUIRED = ["mon.completed", "mon.percentage", "mon.finished", "mon.finish_time_fixed", "mon.speed", "mon.track",
+REQUIRED = ["mon.track_schedules", "mon.completed", "mon.percentage", "mon.finished", "mon.finish_time_fixed", "mon.speed", "mon.track",
             "mon.schedules", "mon.conservation", "mon.lock_order_replay", "mon.switches_inside_mutators"]
 MIN_NONTRIVIAL = {"quick": 1500, "thorough": 80000}
 
@@ -252,6 +252,109 @@ def wl_track(ctx, rng, case_no):
     ctx.case_done(("track", n, as_gen, auto, stop_at), n >= 2, wit)
 
 
+# ---------------------------------------------------------------------------------------------- track, scheduled
+_track_holder = {"sched": None, "firings": 4}
+_track_codes = None
+
+
+def _instrument_track(sched):
+    """track() with auto_refresh hands the counting to a helper thread (_TrackThread) that wakes on a timer and
+    copies a counter the iterating thread increments.  Under the cooperative scheduler the timer fires where the
+    schedule says, and the helper can be preempted at every line / every bytecode of its loop."""
+    global _track_codes
+    from rv.sched import scheduler as S
+    from rv.sched import coop
+    import rich.progress as rp
+    if _track_codes is None:
+        line_codes = S.code_objects(rp)
+        instr = [c for c in line_codes if c.co_qualname in ("_TrackThread.run", "Progress.track", "Progress.advance",
+                                                            "Progress.update", "_TrackThread.__exit__")]
+        _track_codes = (line_codes, instr)
+        coop.patch_thread_class(rp._TrackThread, lambda: _track_holder["sched"])
+        coop.patch_thread_class(rp._RefreshThread, lambda: _track_holder["sched"])
+    S.install(sched, _track_codes[0], _track_codes[1])
+    _track_holder["sched"] = sched
+    rp.RLock = lambda: coop.CoopRLock(_track_holder["sched"], "progress.RLock")
+    rp.Event = lambda: coop.CoopEvent(_track_holder["sched"], "progress.Event", max_firings=_track_holder["firings"])
+
+
+def _uninstrument_track():
+    from rv.sched import scheduler as S
+    import rich.progress as rp
+    rp.RLock = threading.RLock
+    rp.Event = threading.Event
+    S.uninstall()
+    _track_holder["sched"] = None
+
+
+def wl_track_scheduled(ctx, rng, case_no):
+    from rv.sched import scheduler as S
+    from rich.console import Console
+    from rich.progress import Progress
+    n = rng.choice([1, 2, 3, 5, 8, 13])
+    as_gen = rng.random() < 0.3
+    firings = rng.choice([1, 2, 4, 8])
+    strat_kind = rng.choice(["pct2", "pct3", "random", "random"])
+    sseed = rng.randrange(1 << 30)
+    if strat_kind == "random":
+        strategy = S.RandomWalk(sseed, switch_prob=rng.choice([0.1, 0.3, 0.6]))
+    else:
+        strategy = S.PCT(sseed, depth=int(strat_kind[3]), est_steps=rng.choice([300, 1000]))
+    sched = S.Scheduler(strategy, max_steps=400000)
+    _track_holder["firings"] = firings
+    _instrument_track(sched)
+    clock = Clock()
+    items = [("x", i) for i in range(n)]
+    got = []
+    observed = []      # (elements yielded so far, task.completed) read by the iterating thread
+    box = {}
+    try:
+        console = Console(file=io.StringIO(), force_terminal=False, width=80, _environ={}, get_time=clock)
+        p = Progress(console=console, auto_refresh=True, get_time=clock, refresh_per_second=10)
+        box["p"] = p
+
+        def main():
+            with p:
+                seq = (x for x in items) if as_gen else list(items)
+                for x in p.track(seq, total=n if as_gen else None, update_period=0.01):
+                    got.append(x)
+                    clock.t += 0.25
+                    if p.tasks:
+                        observed.append((len(got), p.tasks[0].completed))
+        sched.spawn("main", main)
+        outcome = sched.run(timeout=30.0)
+    finally:
+        _uninstrument_track()
+    ctx.count("mon.track_schedules")
+    wit = {"n": n, "generator": as_gen, "timer_firings_allowed": firings, "strategy": strat_kind,
+           "schedule_seed": sseed, "outcome": outcome, "switches": sched.switches, "steps": sched.step}
+    if outcome == "watchdog":
+        ctx.mark_inconclusive("track schedule watchdog fired (30 s)")
+        return
+    if outcome == "deadlock":
+        ctx.violation("deadlock-in-track", dict(wit, wait_for=sched.deadlock))
+        return
+    if sched.errors:
+        ctx.violation("exception-in-thread:" + sched.errors[0][1][:60], dict(wit, errors=sched.errors[:2]))
+        return
+    task = p.tasks[0]
+    wit["completed"] = task.completed
+    wit["observed(yielded, completed)"] = observed[:20]
+    if got != items:
+        ctx.violation("track-yields-wrong-elements:scheduled", dict(wit, got=got[:10]))
+    elif task.completed != n:
+        ctx.violation("track-completed-differs-from-elements-yielded:auto=True:scheduled", wit)
+    elif any(c > y for y, c in observed) or any(b[1] < a[1] for a, b in zip(observed, observed[1:])):
+        # the count shown while iterating never runs ahead of the elements handed out, and never goes back
+        ctx.violation("track-count-ahead-of-elements-or-decreasing:scheduled", wit)
+    helper_steps = sum(1 for t in sched.threads if t.name.startswith("_TrackThread"))
+    ctx.hist("track_timer_firings", firings)
+    ctx.distinct("track schedules(choice sequences)", tuple(sched.choices or ()))
+    ctx.case_done(("track-sched", n, as_gen, firings, strat_kind, sseed), n >= 2 and helper_steps >= 1 and sched.switches >= 2,
+                  {"n": n, "firings": firings, "strategy": strat_kind, "switches": sched.switches,
+                   "observed": observed[:8]})
+
+
 # ---------------------------------------------------------------------------------------------- concurrent
 _codes = None
 
@@ -479,6 +582,7 @@ def workloads(tier):
     big = tier == "thorough"
     return [WL("sequential", wl_sequential, 400000 if big else 40000),
             WL("track", wl_track, 3000 if big else 200),
+            WL("track_scheduled", wl_track_scheduled, 300000 if big else 12000),
             WL("concurrent", wl_concurrent, 200000 if big else 10000),
             WL("single_preemption_dfs", wl_dfs, 600 if big else 32)]
 
